@@ -2,7 +2,7 @@ CONSTANTS
   T = {1, 2}
   Firsts = {1}
   Repeats = {0, 1}
-  MaxNow = 3
+  MaxNow = 2
   MaxAdv = 2
   MaxCbOps = 1
   Margin = 0
